@@ -22,7 +22,6 @@ from typing import TYPE_CHECKING, Any, Optional, Self, Union
 
 import pharmpy
 from pharmpy.basic import Expr, TExpr, TSymbol
-from pharmpy.internals.df import hash_df_runtime
 from pharmpy.internals.immutable import Immutable, cache_method, frozenmapping
 from pharmpy.model.external import detect_model
 
@@ -455,7 +454,8 @@ class Model(Immutable):
 
     @cache_method
     def __hash__(self):
-        dataset_hash = hash_df_runtime(self._dataset) if self._dataset is not None else None
+        # NOTE: Only what __eq__ compares, i.e. neither the dataset nor the (unhashable)
+        # initial individual estimates
         return hash(
             (
                 self._parameters,
@@ -464,9 +464,7 @@ class Model(Immutable):
                 self._dependent_variables,
                 self._observation_transformation,
                 self._execution_steps,
-                self._initial_individual_estimates,
                 self._datainfo,
-                dataset_hash,
                 self._value_type,
             )
         )
